@@ -136,10 +136,16 @@ def scan(source: str, callback: callable):
                 if state.start == -1 and state.leading_colon == -1:
                     state.leading_colon = scanner.pos - 1
                 state.property_start = state.start
-            if state.end != -1:
-                state.property_end = state.end
-            state.property_delimiter = scanner.pos - 1
-            state.start = state.end = -1
+                if state.end != -1:
+                    state.property_end = state.end
+                state.property_delimiter = scanner.pos - 1
+                state.start = state.end = -1
+            else:
+                # Name and value are delimited by the first colon, any other
+                # one is a part of value: `--x: a:b`, `filter: progid:X()`
+                if state.start == -1:
+                    state.start = scanner.start
+                state.end = scanner.pos
         else:
             if state.start == -1:
                 # NB: `scanner.start`, not `scanner.pos`: colon(s) of pseudo-element
